@@ -23,6 +23,7 @@ EXPLANATION = (
 EXPLANATION += ' Added after the seeded-change rounds: ' + 'D1 also: decrement_counter reads my_count only before it writes it; whenever my_count can go down the admission condition is evaluated again on every path; D2 also: hash_buffer::insert_with_key leaves the buffer untouched on the paths that return false, and the status of a key-matching put is derived from the insertion result.'
 EXPLANATION += ' Added in the third session (round-3 seeds and the findings they led to): ' + 'D3 also: priority_queue_node::reheap looks at children below mark only (rule shared with C13) and every copy constructor takes user-supplied state (functors, parameters) from its source.'
 EXPLANATION += ' Added in the fifth seeding round: ' + 'D3 also: in sequencer_node::internal_push every tag + 1 (other than the wrap test itself) is dominated by an edge on which the sequence number is known to have a successor.'
+EXPLANATION += ' D1 also: the invariant my_future_decrement <= my_tries of limiter_node is re-established (a clamp, inline or through a helper whose only assignment is that clamp) on every path after an increase of my_future_decrement and after every decrease of my_tries; the lock rule derives its always-called-under-lock helpers from the code.'
 ASSUMPTIONS = ['node kinds instantiated in drivers/flow.cpp', 'aggregator serialises buffer handlers (C13-D1, C14-D1/D2)']
 ND = ['FIFO / sequence / priority order as history properties', 'item-buffer ring arithmetic', 'key-matching counting']
 LOCKCLS = lambda c: c.endswith('scoped_lock')   # noqa: E731
@@ -31,6 +32,7 @@ LIM_FIELDS = ('my_count', 'my_tries', 'my_future_decrement')
 
 def run(facts, rep):
     d1_limiter(facts, rep)
+    d1_future_decrement_is_bounded_by_the_puts_in_flight(facts, rep)
     d2_join(facts, rep)
     d2_rejection_is_clean(facts, rep)
     d3_buffers(facts, rep)
@@ -48,15 +50,30 @@ def incdec(fn, field, op):
 
 def d1_limiter(facts, rep):
     n = 0
-    for fn in facts.find(r'^tbb::detail::d2::limiter_node::'):
-        if fn.kind in ('ctor', 'dtor') or fn.p.endswith('reset_node') or fn.p.endswith('reset_receiver'):
+    lim_fns = [f for f in facts.find(r'^tbb::detail::d2::limiter_node::') if f.kind not in ('ctor', 'dtor')]
+    # "always called under lock" helpers: methods that touch the counters, take no lock themselves and are only called from
+    # other methods of the node - their obligation moves to every call site (check_conditions, trim_future_decrement, ...)
+    helpers = set()
+    for f in lim_fns:
+        if f.p.endswith('reset_node') or f.p.endswith('reset_receiver'):
+            continue
+        touches = [x for x in member_accesses(f, LIM_FIELDS) if x[2].get('cls', '').endswith('limiter_node')]
+        _, info_ = lockset(f, LOCKCLS)
+        callers = facts.callers(f.u)
+        if touches and not info_ and callers and all(c[0].p.startswith(LIM) for c in callers):
+            helpers.add(f.p.split('::')[-1])
+    if 'check_conditions' not in helpers:
+        raise AnalysisBroken('limiter_node::check_conditions is no longer a lock-requiring helper')
+    for fn in lim_fns:
+        if fn.p.endswith('reset_node') or fn.p.endswith('reset_receiver'):
             continue
         acc = [x for x in member_accesses(fn, LIM_FIELDS) if x[2].get('cls', '').endswith('limiter_node')]
-        cc = calls_named(fn, ('check_conditions',))
+        cc = calls_named(fn, tuple(sorted(helpers)))
         if not acc and not cc:
             continue
-        if fn.p == LIM + 'check_conditions':
-            continue      # requires the lock at its call sites (checked there)
+        if fn.p.split('::')[-1] in helpers:
+            # requires the lock at its call sites (checked there); calls of other helpers from inside a helper inherit it
+            continue
         before, info = lockset(fn, LOCKCLS)
         locks = set(v for v, i in info.items() if i['mutex'] == 'my_mutex')
         for pos, s, node, kind in acc:
@@ -64,8 +81,9 @@ def d1_limiter(facts, rep):
             rep.ob('D1', 'K5', fn, 'limiter %s is accessed under my_mutex (line %s)' % (node['n'], node['ln']), bool(before.get(pos, frozenset()) & locks),
                    '%s %s without my_mutex' % (node['n'], kind), ln=node['ln'], key_extra='%s.%s' % (node['ln'], node['n']))
         for pos, s, node, d in cc:
-            rep.ob('D1', 'K5', fn, 'check_conditions() is called with my_mutex held (line %s)' % node['ln'], bool(before.get(pos, frozenset()) & locks),
-                   'check_conditions() without the lock', ln=node['ln'], key_extra='cc' + str(node['ln']))
+            hn = (d or {}).get('n') or 'helper'
+            rep.ob('D1', 'K5', fn, '%s() is called with my_mutex held (line %s)' % (hn, node['ln']), bool(before.get(pos, frozenset()) & locks),
+                   '%s() without the lock' % hn, ln=node['ln'], key_extra=('cc' if hn == 'check_conditions' else hn) + str(node['ln']))
     for name in ('forward_task', 'try_put_task_impl'):
         for fn in facts.get(LIM + name):
             defs = Defs(fn)
@@ -530,3 +548,45 @@ def d3_copy_keeps_user_state(facts, rep):
                        'copy does not keep the user\'s functor / parameter' % k, ln=ci[k][1], key_extra='copy|%s|%s' % (cls, k))
     if n < 5:
         raise AnalysisBroken('copy constructors with user-supplied members: fewer than confirmed by reading (%d)' % n)
+
+
+def d1_future_decrement_is_bounded_by_the_puts_in_flight(facts, rep):
+    """"limiter_node never has more than its threshold of un-decremented forwarded messages": a decrement larger than the current
+    count is partly kept in my_future_decrement, to cancel the count increment of the puts that are still in flight (my_tries).
+    Each of them adds at most one, so the kept excess is meaningful only up to my_tries; what exceeds it must be dropped (the
+    count is truncated at 0 anyway).  A surplus that outlives the in-flight puts silently swallows the increment of a later,
+    unrelated put - the limiter then admits threshold+1 messages without any decrement.  Rule: the invariant
+    my_future_decrement <= my_tries is re-established before the lock is released after every operation that can break it (an
+    increase of my_future_decrement, a decrease of my_tries): every path from such an operation to the end of the function passes
+    a clamp - `if (my_future_decrement > my_tries) my_future_decrement = my_tries` inline, or a helper that does exactly that."""
+    def clamp_positions(fn):
+        """positions of an assignment my_future_decrement = <expression reading my_tries> (the clamp itself)"""
+        out = set()
+        for pos, s, l, r in assignments(fn):
+            if last_member(fn, l) == 'my_future_decrement' and any(fn.nodes[x].get('k') == 'member' and fn.nodes[x].get('n') == 'my_tries' for x in fn.subtree(fn.strip(r))):
+                out.add(pos)
+        return out
+    clampers = set(f.u for f in facts.find(r'^tbb::detail::d2::limiter_node::') if clamp_positions(f) and
+                   every_path_passes(f, 'entry', lambda p, e: False)[0] is False and
+                   all(dominated_by_edges(f, p, edges_where(f, lambda a, truth, f=f: truth and f.n(f.strip(a)).get('k') == 'binop' and f.n(f.strip(a))['op'] in ('>', '>=') and
+                                                            last_member(f, f.n(f.strip(a))['l']) == 'my_future_decrement' and last_member(f, f.n(f.strip(a))['r']) == 'my_tries'))[0]
+                       for p in clamp_positions(f)))
+    n = 0
+    for fn in sorted(facts.find(r'^tbb::detail::d2::limiter_node::'), key=lambda f: f.q):
+        if fn.kind in ('ctor', 'dtor') or fn.u in clampers:
+            continue
+        breakers = [(pos, 'my_tries decreased', nd.get('ln')) for pos, s, nd in incdec(fn, 'my_tries', '--')]
+        for pos, s, nd in fn.stmt_elems(('binop',)):
+            if nd['op'] in ('+=',) and last_member(fn, nd['l']) == 'my_future_decrement':
+                breakers.append((pos, 'my_future_decrement increased', nd.get('ln')))
+        if not breakers:
+            continue
+        good = set(clamp_positions(fn)) | set(pos for pos, s, node, d in calls(fn) if node.get('fn') in clampers)
+        for pos, what, ln in breakers:
+            n += 1
+            ok = every_path_passes(fn, pos, lambda p, e: p in good)[0]
+            rep.ob('D1', 'K3', fn, 'my_future_decrement <= my_tries is re-established after %s (line %s)' % (what, ln), ok,
+                   'the excess of a large decrement can outlive the puts in flight: it later swallows the count increment of an unrelated put and '
+                   'the limiter admits more than `threshold` messages without a decrement', ln=ln, key_extra='future<=tries|%s|%s' % (fn.p.split('::')[-1], what))
+    if n < 4:
+        raise AnalysisBroken('limiter_node: operations that can break my_future_decrement <= my_tries: %d found (expected >= 4)' % n)
